@@ -31,6 +31,21 @@ func (u UM) MarshalFlag() (string, error) {
 	return strings.TrimPrefix(u.V, "um:"), nil
 }
 
+// TB is a bool-kinded type with its own Unmarshaler: it takes an argument ("on" / "off") although its kind is bool.
+type TB bool
+
+func (t *TB) UnmarshalFlag(s string) error {
+	switch s {
+	case "on":
+		*t = true
+	case "off":
+		*t = false
+	default:
+		return errors.New("tb: expected on or off")
+	}
+	return nil
+}
+
 // VV is a string with a ValueValidator: separate-token values starting with
 // '!' are refused.
 type VV string
@@ -107,6 +122,7 @@ var typeByName = map[string]reflect.Type{
 	"float64":  reflect.TypeOf(float64(0)),
 	"duration": reflect.TypeOf(time.Duration(0)),
 	"um":       reflect.TypeOf(UM{}),
+	"tb":       reflect.TypeOf(TB(false)),
 	"vv":       reflect.TypeOf(VV("")),
 	"cc":       reflect.TypeOf(CC("")),
 	"filename": reflect.TypeOf(flags.Filename("")),
@@ -134,6 +150,8 @@ func optFieldType(o *OptNode) reflect.Type {
 		return et
 	case "slice":
 		return reflect.SliceOf(et)
+	case "sliceptr":
+		return reflect.SliceOf(reflect.PtrTo(et))
 	case "map":
 		return reflect.MapOf(typeByName["string"], et)
 	case "ptr":
@@ -212,21 +230,29 @@ func optTag(o *OptNode) string {
 
 // Built is a realised declaration.
 type Built struct {
-	tree   *Tree
-	decl   *Decl
-	p      *flags.Parser
-	log    *evlog
-	opts   []*OptNode      // by flat index - 1
-	optVal []reflect.Value // addressable field values
-	args   [][]reflect.Value
-	argN   [][]*ArgNode
-	plains []reflect.Value // untagged sentinel string fields
-	pptrs  []reflect.Value // untagged nil pointer fields
-	cmds   []*flags.Command
-	cnodes []*CmdNode
-	execs  []*ExecCmd
-	err    error // setup error (AddGroup / AddCommand / NewParser)
-	via    bool
+	tree    *Tree
+	decl    *Decl
+	p       *flags.Parser
+	log     *evlog
+	opts    []*OptNode      // by flat index - 1
+	optVal  []reflect.Value // addressable field values
+	args    [][]reflect.Value
+	argN    [][]*ArgNode
+	plains  []reflect.Value // untagged sentinel string fields
+	pptrs   []reflect.Value // untagged nil pointer fields
+	cmds    []*flags.Command
+	cnodes  []*CmdNode
+	execs   []*ExecCmd
+	err     error // setup error (AddGroup / AddCommand / NewParser)
+	via     bool
+	presets bool
+	aliases []sliceAlias
+}
+
+// sliceAlias: a second reference to the backing array of a preset slice, and what it must keep showing
+type sliceAlias struct {
+	alias reflect.Value
+	want  []string
 }
 
 const sentinel = "untouched-sentinel"
@@ -440,16 +466,29 @@ func (b *Built) preset(o *OptNode, f reflect.Value) {
 		})
 		f.Set(fn)
 	default:
+		if !b.presets {
+			return
+		}
 		for _, t := range o.Init {
-			setText(f, t, 10) // presets are canonical (decimal) texts
+			setText(f, string(t), 10) // presets are canonical (decimal) texts
+		}
+		if f.Kind() == reflect.Slice && f.Len() > 0 && o.Kind == "slice" {
+			al := sliceAlias{alias: f.Slice(0, f.Len())}
+			for i := 0; i < f.Len(); i++ {
+				al.want = append(al.want, atomText(f.Index(i)))
+			}
+			b.aliases = append(b.aliases, al)
 		}
 	}
 }
 
 // Build realises the tree.  Setup errors are recorded in b.err.
-func Build(t *Tree, popts flags.Options) (b *Built) {
+func Build(t *Tree, popts flags.Options) *Built { return BuildOpt(t, popts, true) }
+
+// BuildOpt: presets=false leaves every field at its zero value (a fresh parser over the same declaration).
+func BuildOpt(t *Tree, popts flags.Options, presets bool) (b *Built) {
 	d := Flatten(t)
-	b = &Built{tree: t, decl: d, log: &evlog{}}
+	b = &Built{tree: t, decl: d, log: &evlog{}, presets: presets}
 	b.opts = make([]*OptNode, len(d.Opts))
 	b.optVal = make([]reflect.Value, len(d.Opts))
 	b.args = make([][]reflect.Value, len(d.Cmds))
